@@ -61,6 +61,25 @@ CLAIMED = {
              "hashes logged and judged by TLC against ContentEquiv of the logged projections.",
         note=TRUST + ". scripts/prov-compare and serialisation round trips as transformations are not yet driven.",
         ref="3 C04"),
+    "C17": dict(
+        text="(A) MC_FS: the write-then-move protocol of serialize(destination=path) (FS.tla) keeps the named file "
+             "absent/old/complete-new in EVERY state and is exact on success, for every crash point x pre-existing file "
+             "x other-file-system temp dir x 10 file-name classes (the original protocol variant is checked to fail); "
+             "(B) one Save call per configuration x crash point (k-th write with 0/half/all-but-one bytes, the move) "
+             "generated by TLC and run under fsfault.py (stdlib entry points patched, directory snapshot at every "
+             "step); (C) TLC judges the snapshots (C17_atomic/exact/keep/propagate) and validates the event sequence "
+             "as a run of FS.tla.",
+        note=TRUST + ". A write route that bypasses the patched stdlib entry points would not be observed.",
+        ref="3 C17"),
+    "C16": dict(
+        text="(A) IO.tla: stream-position machine of deserialize and of the prov.read detection loop; TLC evaluates that "
+             "the repaired (buffered) loop returns the document for every readable format x source kind and the original "
+             "loop does not; (B)+(C) per format x document variant the driver writes to all 4 destination kinds, reads "
+             "back through all 5 source kinds and through prov.read (explicit / detected) and TLC compares the equality "
+             "bits and projection digests, and binds each outcome class to the IO machine.",
+        note=TRUST + ". Documents are 6 sample variants with seeded non-ASCII values, not the whole C01 space; XML texts "
+             "compared by canonical form, RDF texts by graph isomorphism.",
+        ref="3 C16"),
 }
 for _c in CLAIMED.values():
     _c.setdefault("technique", TECH)
